@@ -188,6 +188,47 @@ func init() {
 				}
 			}
 		}
+		// a RELATIVE root directory ("." and spellings that clean to it) with the process standing in it: every
+		// location of the enumeration again, context-less and from loading files given by relative locations
+		must(os.Chdir(filepath.Join(W, "root")))
+		dotCtx := map[string]string{"none": "", "main": "main.lisp", "subx": "sub/x.lisp"}
+		var recDot func(comps []string)
+		visitDot := func(comps []string) {
+			loc := strings.Join(comps, "/")
+			for _, spell := range []string{".", "./", "sub/.."} {
+				for ctx, cl := range dotCtx {
+					ncase++
+					lib := &lisp.RelativeFileSystemLibrary{RootDir: spell}
+					_, _, data, err := lib.LoadSource(lisp.NewSourceContext("ctx", cl), loc)
+					if err == nil {
+						out.emit(J{"dotroot": true, "root": spell, "ctx": ctx, "comps": comps, "marker": marker(data), "via": "loadsource"})
+					}
+					if ctx == "none" && (err == nil || ncase%7 == 0) {
+						env := lisp.NewEnv(nil)
+						env.Runtime.Reader = parser.NewReader()
+						env.Runtime.Library = lib
+						if rc := lisp.InitializeUserEnv(env); rc.Type == lisp.LError {
+							must(fmt.Errorf("%v", rc))
+						}
+						if v := env.LoadFile(loc); v.Type == lisp.LSymbol {
+							out.emit(J{"dotroot": true, "root": spell, "ctx": ctx, "comps": comps, "marker": v.Str, "via": "LoadFile"})
+						}
+					}
+				}
+			}
+		}
+		recDot = func(comps []string) {
+			if len(comps) > 0 {
+				visitDot(comps)
+			}
+			if len(comps) == in.MaxC {
+				return
+			}
+			for _, c := range in.Comps {
+				recDot(append(append([]string{}, comps...), c))
+			}
+		}
+		recDot(nil)
 		out.emit(J{"summary": true, "cases": ncase})
 	}
 }
